@@ -476,11 +476,29 @@ func runC01(r *Report) {
 					}
 					return false
 				}
+				type fullRead struct {
+					ci  ssa.CallInstruction
+					buf ssa.Value
+				}
+				var frs []fullRead
 				for _, ci := range Calls(w.fn, false, "io:ReadFull", "io:ReadAtLeast") {
-					if ClassifyRead(ci).Shape != "full" {
-						continue
+					if ClassifyRead(ci).Shape == "full" {
+						frs = append(frs, fullRead{ci, Arg(ci, 1)})
 					}
-					buf := stripValue(Arg(ci, 1))
+				}
+				// a hand-written full reader of the package (`ps.readFull(buf)`: accumulate until len(buf))
+				Instrs(w.fn, func(in ssa.Instruction) {
+					if hc, ok := in.(*ssa.Call); ok {
+						if h := hc.Common().StaticCallee(); h != nil && h.Pkg == rb.Pkg && len(h.Blocks) > 0 {
+							if i := fullReaderParam(h); i >= 0 && i < len(hc.Call.Args) {
+								frs = append(frs, fullRead{hc, hc.Call.Args[i]})
+							}
+						}
+					}
+				})
+				for _, fr := range frs {
+					ci := fr.ci
+					buf := stripValue(fr.buf)
 					var n ssa.Value
 					switch b := buf.(type) {
 					case *ssa.MakeSlice:
@@ -1001,4 +1019,27 @@ func sizeRejections(g *ssa.Function, maxBody int64) []sizeRejection {
 		}
 	})
 	return out
+}
+
+// fullReaderParam: h fills one of its []byte parameters completely by an accumulate-until-len loop
+// on a raw Read (the shape AccumLoop accepts, bound = len(param)); returns the parameter's index in
+// h.Params, or -1.
+func fullReaderParam(h *ssa.Function) int {
+	for _, ci := range Calls(h, false, "Read") {
+		if !isReadMethod(ci) {
+			continue
+		}
+		acc, _, buf, _ := AccumLoop(ci)
+		if acc == nil {
+			continue
+		}
+		if p, ok := stripValue(buf).(*ssa.Parameter); ok {
+			for i, q := range h.Params {
+				if q == p {
+					return i
+				}
+			}
+		}
+	}
+	return -1
 }
